@@ -61,13 +61,13 @@ var props = map[string]propSpec{
 	}, Assumptions: with("clock assumption: the honest flow finishes within 1 s of symbolic time (vf.ShortScenario)", "the symbolic run uses the harness's marshal-based storage; file and store-once back ends are covered by C19"),
 		Explanation: "the four honest enrollment flows from SSA (storage wrappers on/off on both sides, application state on/off) with every issued certificate inspected; node-side refusal of foreign or wrong-nonce responses; full-entropy server key"},
 	"C05": {Harnesses: []harnessSpec{
-		{Pkg: "tls", Fn: "VerifC05KeyIdPath1", Validate: 8, MustReach: []string{"gate-passed", "rejected"}, Panics: true, CrossSolver: "z3"},
-		{Pkg: "tls", Fn: "VerifC05KeyIdPath2", Validate: 8, MustReach: []string{"gate-passed", "rejected"}, Panics: true},
+		{Pkg: "tls", Fn: "VerifC05KeyIdPath1", Validate: 8, MustReach: []string{"certificates-generated", "rejected"}, Panics: true, CrossSolver: "z3"},
+		{Pkg: "tls", Fn: "VerifC05KeyIdPath2", ShardBits: 2, Validate: 8, MustReach: []string{"certificates-generated", "rejected"}, Panics: true},
 		{Pkg: "tls", Fn: "VerifC05NodeIdPath0", Validate: 4, MustReach: []string{"rejected"}, Panics: true},
-		{Pkg: "tls", Fn: "VerifC05NodeIdPath1", Validate: 8, MustReach: []string{"gate-passed", "rejected"}, Panics: true},
-		{Pkg: "tls", Fn: "VerifC05NodeIdPath2", Validate: 8, MustReach: []string{"gate-passed", "rejected"}, Panics: true},
-		{Pkg: "tls", Fn: "VerifC05NodeIdPath3", Validate: 8, MustReach: []string{"gate-passed", "rejected"}, Panics: true, ThoroughOnly: true},
-	}, Assumptions: with("the certificate-minting tail after the gate is cut (storage returns a sentinel when the roots are loaded); it runs in C02/C04"), Explanation: "GenerateServerCertificates verification gate over both lookup paths, 0..3 records in any order and grouping, nonce and client-state signatures chosen independently"},
+		{Pkg: "tls", Fn: "VerifC05NodeIdPath1", Validate: 8, MustReach: []string{"certificates-generated", "rejected"}, Panics: true},
+		{Pkg: "tls", Fn: "VerifC05NodeIdPath2", ShardBits: 2, Validate: 8, MustReach: []string{"certificates-generated", "rejected"}, Panics: true},
+		{Pkg: "tls", Fn: "VerifC05NodeIdPath3", ShardBits: 2, Validate: 8, MustReach: []string{"certificates-generated", "rejected"}, Panics: true, ThoroughOnly: true},
+	}, Assumptions: with(), Explanation: "the whole of GenerateServerCertificates (verification and minting) over both lookup paths, 0..3 records in any order and grouping, nonce and client-state signatures chosen independently"},
 	"C06": {Harnesses: []harnessSpec{
 		{Pkg: "registration", Fn: "VerifC06SingleUse", Validate: 8, MustReach: []string{"first-use-enrolled", "first-use-refused"}},
 		{Pkg: "registration", Fn: "VerifC06ExistingKey", Validate: 4, MustReach: []string{"enrolled", "refused"}},
